@@ -209,6 +209,9 @@ def err_chain(b, site):
             return []
         if xs.k == "call" and xs.a and xs.x.get("site") != site:
             return [[xs.x["path"].rsplit("::", 1)[-1]] + ch for ch in descend(xs.a[0], depth + 1)]
+        if xs.k == "agg" and xs.x.get("ak") == "adt" and len(xs.a) == 1 and xs.x.get("variant") not in ("Err", "Ok", "Some"):
+            # a wrapping variant (Error::Merge(e)) counts as a conversion named after the variant
+            return [[xs.x["variant"]] + ch for ch in descend(xs.a[0], depth + 1)]
         return []
 
     best = None
